@@ -2,18 +2,22 @@
 # usage: tools/seeded_verify.sh <dir with patch.diff + run_demo.sh>   (run from anywhere)
 # Confirms in a scratch worktree of /repo (outside /repo and /verif): the change compiles, the repository's own
 # test suite passes with it, the demonstration fails with it and passes without it.  Writes <dir>/verify.log.
+# One verification at a time (flock); private cargo target dir (a target dir shared with other worktrees gave
+# wrong demo results: binaries relinked against another worktree's rlib).
 set -u
 d=$(realpath "$1")
-wt=/var/tmp/vf-scratch/verify-wt-$$
-export CARGO_TARGET_DIR=${CARGO_TARGET_DIR:-/tmp/seed/target} CARGO_NET_OFFLINE=true
-git -C /repo worktree add --detach $wt HEAD >/dev/null 2>&1 || exit 2
+wt=/var/tmp/vf-scratch/verify-wt
+export CARGO_TARGET_DIR=/var/tmp/vf-scratch/verify-target CARGO_NET_OFFLINE=true
+exec 9>/var/tmp/vf-scratch/verify.lock; flock 9
+[ -d $wt ] || git -C /repo worktree add --detach $wt HEAD >/dev/null 2>&1 || exit 2
+git -C $wt checkout -q -- . ; git -C $wt clean -fdq; git -C $wt checkout -q --detach $(git -C /repo rev-parse HEAD)
 log=$d/verify.log; : > $log
 {
 echo "base commit: $(git -C $wt rev-parse --short HEAD)"
 git -C $wt apply $d/patch.diff || { echo "PATCH DOES NOT APPLY"; }
 ( cd $wt && cargo test --workspace --no-fail-fast --offline --lib --bins --tests > $d/verify_suite.log 2>&1 ); s=$?
 pass=$(grep -E "^test result" $d/verify_suite.log | awk '{p+=$4; f+=$6} END {print p" passed "f" failed"}')
-echo "suite with change: exit=$s $pass"
+echo "suite with change (cargo test --workspace --no-fail-fast --offline --lib --bins --tests): exit=$s $pass"
 bash $d/run_demo.sh $wt > $d/verify_demo_with.log 2>&1; a=$?
 echo "demo with change: exit=$a (expected non-zero)"
 git -C $wt checkout -q -- . ; git -C $wt clean -fdq
@@ -21,5 +25,4 @@ bash $d/run_demo.sh $wt > $d/verify_demo_without.log 2>&1; b=$?
 echo "demo without change: exit=$b (expected 0)"
 if [ $s -eq 0 ] && [ $a -ne 0 ] && [ $b -eq 0 ]; then echo "VERIFIED"; else echo "NOT VERIFIED"; fi
 } >> $log 2>&1
-git -C /repo worktree remove --force $wt
 cat $log
